@@ -34,7 +34,7 @@ def run_case(case):
     else:
         counters["designs_with_rejection"] = 1
     for strat, n in plan:
-        r, err, st = D.run_strategy(p.spec, strat, n, 25)
+        r, err, st = D.run_strategy(p.spec, strat, n, 12)
         if st != "ok":
             counters["%s_%s" % (strat.lower(), st)] = 1
             continue
